@@ -112,6 +112,9 @@ var meshMethodOps = []meshOp{
 		zz.Assume(hasPos(o))
 		return r.CopyFloat3Attribute(o, modeling.PositionAttribute)
 	}},
+	// stripping an attribute: setting it to no data
+	{"StripFloat2", func(r, o modeling.Mesh, k int) modeling.Mesh { return r.SetFloat2Attribute(modeling.TexCoordAttribute, nil) }},
+	{"SetMaterials", func(r, o modeling.Mesh, k int) modeling.Mesh { return r.SetMaterials(r.Materials()) }},
 }
 
 var meshopsOps = []meshOp{
